@@ -320,3 +320,5 @@ pub proof fn lemma_forward_property(w: World, w2: World, tok: Address, fee: i128
         }
     }
 }
+
+pub open spec fn w_auth(w: World, a: Address) -> World { World { auths: w.auths.insert(a), ..w } }
